@@ -184,6 +184,12 @@ REGRESSION = [
                 'sub': {'n0': 5, 'refill': 0}, 'rsrc': {'kind': 'manual', 'els': [], 'end': 'flag'},
                 'rsub': {'n0': 5, 'refill': 0}}],
      'ops': [['start'], ['tick', 4], ['req', 0, 'resp', 1], ['tick', 3]]},
+    # D22: the requester cancels a channel whose responder has no publisher (it completed its side at once)
+    {'gen': 'race', 'cfg': {'msg': False, 'frag': [None, None], 'rbuf': [1024, 1024]},
+     'inter': [{'k': 'ch', 'side': 'c', 'req': [0, 0], 'src': None, 'sub': {'n0': 5, 'refill': 0},
+                'rsrc': {'kind': 'gen', 'els': [], 'end': 'flag', 'awaits': 0}, 'rsub': {'n0': 5, 'refill': 0}}],
+     'ops': [['start'], ['tick', 2], ['block', 'c'], ['regime', 'manual'], ['tick', 2], ['deliver', 's', None], ['cancel', 0, 'resp'],
+             ['tick', 2], ['unblock', 'c'], ['regime', 'pumped'], ['tick', 3]]},
     # ... and one that completed: the elements must not be sent a second time
     {'gen': 'race', 'cfg': {'msg': False, 'frag': [None, None], 'rbuf': [1024, 1024]},
      'inter': [{'k': 'ch', 'side': 'c', 'req': [0, 0], 'src': {'kind': 'gen', 'els': [[4, 0], [5, 0]], 'end': 'sep', 'awaits': 0},
